@@ -2,7 +2,7 @@
 from harness import tcpgen as G, wire as W
 
 RULE = ("MSS boundary values + uniform, both IP versions, MTU 41..65535, base option lists (no MSS / MSS first, middle, duplicated / "
-        "several other options) both as sniffed (dissected from bytes, explicit fields) and as constructed Scapy packets, all flag "
+        "several other options), bare or under Ethernet / 802.1Q / Linux cooked link layers, both as sniffed (dissected from bytes, explicit fields) and as constructed Scapy packets, all flag "
         "types incl. invalid and fragments, MTU databases with duplicates and misses; non-trivial = fingerprint accepted the packet; "
         "the impersonated packet is re-fingerprinted and all non-option fields compared")
 GEN_TIE = True     # gates, from_mss and mtu_signatures_match are also TRANSLATED from /repo's source on every run and proved equal to the model
@@ -61,6 +61,8 @@ def generate(R, tier):
                 dbm.insert(R.randint(0, len(dbm)), hit)
                 if R.random() < 0.3:
                     dbm.append(hit)
+        if R.random() < 0.3:
+            c["link"] = R.choice(["ether", "ether", "dot1q", "sll"])
         yield c
 
 
@@ -157,6 +159,9 @@ def impl_init():
             ip = IP(frag=5 if c.get("frag") else 0) if c["v"] == 4 else IPv6()
             opts = [(n, tuple(v) if isinstance(v, list) else v) for n, v in c["opts"]]
             base = ip / TCP(flags=c["flags"], seq=1, options=opts)
+        if c.get("link"):
+            from scapy.layers.l2 import CookedLinux, Dot1Q, Ether
+            base = {"ether": Ether(), "dot1q": Ether() / Dot1Q(vlan=7), "sll": CookedLinux()}[c["link"]] / base
         if c["dbm"] is None:
             from pyp0f.database import Database
             db = Database()
